@@ -75,6 +75,17 @@ def run(ctx):
         for fl in (0x02, 0x12):
             pool.append(("T", f"4:{seg(r, fl, 1460, 1460 * k0)}:0:35"))
             pool.append(("T", f"4:{seg(r, fl, 1400, 1400 * k0, ttl=r.choice([70, 100]))}:0:35"))
+        # handshake segments carrying extra flag bits (ECE / CWR of an ECN stack, PSH, URG) and segments that are no handshake at all:
+        # raw and parsed input must get the same verdict (result or PacketError) for them too
+        for _k in range(r.randint(1, 3)):
+            fl = r.choice([0x02 | 0x40 | 0x80, 0x02 | 0x08, 0x12 | 0x40, 0x02 | 0x20, 0x12 | 0x08, 0x12 | 0x80, 0x10, 0x18, 0x04, 0x11, 0x03, 0x06])
+            m = r.choice([1460, 1400])
+            pool.append(("T", f"4:{seg(r, fl, m, m * r.randint(1, 7))}:0:35"))
+            if r.random() < 0.5:
+                pool.append(("M", f"4:{seg(r, fl, m, 8192)}"))
+            if r.random() < 0.4:
+                pool.append(("T", f"6:{seg6(r, fl, m, m * r.randint(1, 7))}:0:35"))
+        pool.append(("T", f"4:{linux_syn(r, 0x02 | 0x40 | 0x80)}:0:35"))
         pool.append(("T", f"4:{linux_syn(r)}:0:35"))
         pool.append(("T", f"4:{linux_syn(r, 0x12)}:{r.choice([0, 1460])}:35"))
         pool.append(("M", f"4:{seg(r, 2, r.choice([1460, 1400, 1452]), 8192)}"))
